@@ -82,6 +82,8 @@ def make_grammars(tier, seed):
         gs.append(GR.random_grammar(rng))
     for _ in range(n):
         gs.append(GR.merge_family(rng))
+    for _ in range(n // 4):
+        gs.append(GR.late_lookahead_family(rng))
     return gs, rng
 
 
